@@ -75,6 +75,18 @@ func New(filename string, src io.Reader) (*Lexer, error) {
 // NextToken scans the input stream until it recognizes a valid token, which it then returns.
 // If the end of the input is reached, it returns an io.EOF error.
 func (l *Lexer) NextToken() (lexer.Token, error) {
+	// Whitespaces, newlines, and comments are skipped in a loop (not by recursion):
+	// a specification may contain any number of them in a row.
+	for {
+		token, skip, err := l.scanToken()
+		if err != nil || !skip {
+			return token, err
+		}
+	}
+}
+
+// scanToken scans the input stream until it recognizes a token, which may be one that is to be skipped.
+func (l *Lexer) scanToken() (lexer.Token, bool, error) {
 	for curr, next := 0, 0; ; curr = next {
 		// Read the next character from the input stream.
 		r, err := l.in.Next()
@@ -85,7 +97,7 @@ func (l *Lexer) NextToken() (lexer.Token, error) {
 				return l.evalToken(curr)
 			}
 
-			return lexer.Token{}, err
+			return lexer.Token{}, false, err
 		}
 
 		// Keep running the DFA through the input symbols.
@@ -100,18 +112,18 @@ func (l *Lexer) NextToken() (lexer.Token, error) {
 	}
 }
 
-// evalToken evaluates the final state of the DFA and returns the token recognized, if any.
-func (l *Lexer) evalToken(state int) (lexer.Token, error) {
+// evalToken evaluates the final state of the DFA and returns the token recognized, if any,
+// and whether it is a token to be skipped (whitespaces, newlines, and comments).
+func (l *Lexer) evalToken(state int) (lexer.Token, bool, error) {
 	token := l.evalDFA(state)
 
 	switch token.Terminal {
 	case ERR:
-		return lexer.Token{}, errors.New(token.Lexeme)
+		return lexer.Token{}, false, errors.New(token.Lexeme)
 	case WS, EOL, COMMENT:
-		// Skip whitespaces, newlines, and comments.
-		return l.NextToken()
+		return lexer.Token{}, true, nil
 	default:
-		return token, nil
+		return token, false, nil
 	}
 }
 
